@@ -198,7 +198,19 @@ fn check_ids(out: &mut Out, l128: &[u128], l64: &[u128]) {
             out.violation("traceid-serde-form", format!("{t:x}"), j.clone());
         }
         if serde_json::from_str::<TraceId>(&j).ok() != Some(id) {
-            out.violation("traceid-serde", j, "serde round trip".into());
+            out.violation("traceid-serde", j.clone(), "serde round trip".into());
+        }
+        // deserializers that cannot lend the input: from an owned value, from a reader, and from
+        // text whose string needs unescaping
+        let esc = format!("\"\\u003{}{}", &d[0..1], &j[2..]);
+        if d.as_bytes()[0].is_ascii_digit() && serde_json::from_str::<TraceId>(&esc).ok() != Some(id) {
+            out.violation("traceid-serde-escaped", esc, "serde round trip through an escaped JSON string".into());
+        }
+        if serde_json::from_value::<TraceId>(serde_json::Value::String(d.clone())).ok() != Some(id) {
+            out.violation("traceid-serde-owned", j.clone(), "serde round trip through serde_json::Value".into());
+        }
+        if serde_json::from_reader::<_, TraceId>(j.as_bytes()).ok() != Some(id) {
+            out.violation("traceid-serde-reader", j, "serde round trip through a reader".into());
         }
     }
     for &s in l64 {
@@ -217,7 +229,17 @@ fn check_ids(out: &mut Out, l128: &[u128], l64: &[u128]) {
             out.violation("spanid-serde-form", format!("{s:x}"), j.clone());
         }
         if serde_json::from_str::<SpanId>(&j).ok() != Some(id) {
-            out.violation("spanid-serde", j, "serde round trip".into());
+            out.violation("spanid-serde", j.clone(), "serde round trip".into());
+        }
+        let esc = format!("\"\\u003{}{}", &d[0..1], &j[2..]);
+        if d.as_bytes()[0].is_ascii_digit() && serde_json::from_str::<SpanId>(&esc).ok() != Some(id) {
+            out.violation("spanid-serde-escaped", esc, "serde round trip through an escaped JSON string".into());
+        }
+        if serde_json::from_value::<SpanId>(serde_json::Value::String(d.clone())).ok() != Some(id) {
+            out.violation("spanid-serde-owned", j.clone(), "serde round trip through serde_json::Value".into());
+        }
+        if serde_json::from_reader::<_, SpanId>(j.as_bytes()).ok() != Some(id) {
+            out.violation("spanid-serde-reader", j, "serde round trip through a reader".into());
         }
     }
     // odd text never panics
@@ -405,7 +427,7 @@ fn main() {
         },
         "assumptions": [
             "a leading '+' in a field (accepted by Rust's from_str_radix), over-long fields with leading zeros and short fields are outside what the statement fixes: judged only for the value returned, never for acceptance",
-            "serde is exercised through serde_json"
+            "serde is exercised through serde_json: from_str (borrowed), escaped strings, from_value (owned) and from_reader"
         ],
         "wall_s": t0.elapsed().as_secs_f64(),
         "violations": out.violations.len(),
